@@ -88,5 +88,16 @@ package types
 //@   ensures true
 
 //@ interface MetaStore.Close
-//@   assigns self.closed
-//@   ensures self.closed
+//@   assigns self.closed, self.open
+//@   ensures self.closed && !self.open
+
+//@ -- g_commits counts successful CommitState calls: the durable metadata
+//@ -- changes exactly at those points (atomically, per the MetaStore interface).
+//@ interface MetaStore.CommitState
+//@   ensures true
+//@   ghostset g_commits = ite(result == nil, g_commits + 1, g_commits)
+
+//@ interface MetaStore.Load
+//@   assigns self.open
+//@   ensures result1 == nil ==> self.open
+//@   ensures result1 != nil ==> self.open == old(self.open)
